@@ -97,11 +97,13 @@ func runFromAfterFind(s spec, db *gorm.DB, run func(db *gorm.DB) *gorm.DB) *gorm
 
 // startsFromInheritingSession: the operation's first call on its handle is Session(..) without NewDB. On the tx of a
 // hook such a session inherits the statement of the operation the hook belongs to (DESIGN 8.3a): not generated.
-func startsFromInheritingSession(kind string) bool { return kind == "FullSave" }
+func startsFromInheritingSession(kind string) bool {
+	return kind == "FullSave" || kind == "FullSaveCreate"
+}
 
 // ---- operation kinds ----------------------------------------------------------------------------------------------
 
-var svKinds = []string{"SaveAbsent", "SaveAbsentBare", "SaveSlice", "DeleteSlice"}
+var svKinds = []string{"SaveAbsent", "SaveAbsentBare", "SaveSlice", "DeleteSlice", "FullSaveCreate"}
 
 func isSv(kind string) bool {
 	for _, k := range svKinds {
@@ -234,6 +236,20 @@ func svGenOp(kind string, seed uint64) txm.Op {
 			us := build()
 			last = nil
 			return db.Save(&us)
+		}
+	case "FullSaveCreate":
+		// a new owner whose associated records exist already and are rewritten with it
+		r := mk()
+		withOrder := r.Bool()
+		op.Desc = fmt.Sprintf("db.Session(&Session{FullSaveAssociations:true}).Create(&User{Name:new, Company:{ID:1,Name:'acme2'}, Roles:[{ID:1,Name:'admin2'},{new}], Orders:[{ID:3,Item:'cup2',Lines:[{ID:3,Qty:5},{new}]}] (%v)})", withOrder)
+		op.Run = func(db *gorm.DB) *gorm.DB {
+			u := &txm.User{Name: "u" + tag, Age: 20, Company: &txm.Company{ID: 1, Name: "acme2"},
+				Roles: []txm.Role{{ID: 1, Name: "admin2"}, {Name: "role" + tag}}}
+			if withOrder {
+				u.Orders = []txm.Order{{ID: 3, Item: "cup2", Lines: []txm.Line{{ID: 3, OrderID: 3, Qty: 5}, {Qty: 6}}}}
+			}
+			last = []*txm.User{u}
+			return db.Session(&gorm.Session{FullSaveAssociations: true}).Create(u)
 		}
 	case "DeleteSlice":
 		r := mk()
